@@ -1379,6 +1379,13 @@ class Models:
                 return None
             if name == "copy":
                 return ip.schema.hl_snapshot(ip, recv)
+            if name == "extend":
+                items = ip.concrete_iter(args[0])
+                if items is None:
+                    raise Unsupported("list.extend on a heap list with a symbolic-length iterable")
+                for x in items:
+                    ip.schema.hl_append(ip, recv, x)
+                return None
             raise Unsupported(f"list.{name} on a heap list")
         if isinstance(recv, PList):
             if name == "append":
